@@ -14,18 +14,18 @@ import (
 // stay the same when other calls are removed while shrinking. Everything else
 // (who calls what, configuration, time-based faults, probabilities) is explicit.
 type Scenario struct {
-	Mode     string     `json:"mode"`
-	Cfg      ClientCfg  `json:"cfg"`
-	Stores   int        `json:"stores"`    // 1..2 store addresses
-	FwdHosts int        `json:"fwd_hosts"` // 0..2 forwarded hosts
-	Callers  []Caller   `json:"callers"`
-	Closes   []CloseEv  `json:"closes,omitempty"`
-	Breaks   []BreakEv  `json:"breaks,omitempty"`
-	Net      NetCfg     `json:"net"`
-	Yield    YieldCfg   `json:"yield"`
-	Tail     int        `json:"tail"` // healthy calls per caller after the faults have stopped
-	HashSalt uint64     `json:"hash_salt"`
-	Listener bool       `json:"listener"` // install a health feedback listener
+	Mode     string    `json:"mode"`
+	Cfg      ClientCfg `json:"cfg"`
+	Stores   int       `json:"stores"`    // 1..2 store addresses
+	FwdHosts int       `json:"fwd_hosts"` // 0..2 forwarded hosts
+	Callers  []Caller  `json:"callers"`
+	Closes   []CloseEv `json:"closes,omitempty"`
+	Breaks   []BreakEv `json:"breaks,omitempty"`
+	Net      NetCfg    `json:"net"`
+	Yield    YieldCfg  `json:"yield"`
+	Tail     int       `json:"tail"` // healthy calls per caller after the faults have stopped
+	HashSalt uint64    `json:"hash_salt"`
+	Listener bool      `json:"listener"` // install a health feedback listener
 }
 
 // ClientCfg is the part of config.TiKVClient the run sets.
@@ -53,7 +53,10 @@ type Call struct {
 	Async     bool   `json:"async,omitempty"`
 	TimeoutMs int    `json:"timeout_ms"` // 0 (async only): no deadline at all
 	CancelUs  int    `json:"cancel_us,omitempty"`
-	ThinkUs   int    `json:"think_us"`
+	// CtxExtraMs > 0 (synchronous calls): the caller's context carries a deadline this much LATER than the call's own
+	// time-out, as the contexts of statements with a max execution time do; the call is still bounded by its time-out
+	CtxExtraMs int `json:"ctx_extra_ms,omitempty"`
+	ThinkUs    int `json:"think_us"`
 }
 
 // CloseEv closes the client or the pool of one address at a simulated instant.
@@ -73,20 +76,23 @@ type BreakEv struct {
 
 // NetCfg holds per-mille probabilities of per-request fates and delay shapes.
 type NetCfg struct {
-	Drop        int `json:"drop"`         // response never sent
-	Dup         int `json:"dup"`          // response sent twice
-	Ghost       int `json:"ghost"`        // an extra response with an id nobody asked for
-	RecvBreak   int `json:"recv_break"`   // the stream dies instead of answering
-	ConnWide    int `json:"conn_wide"`    // ... and with it every stream of the connection
-	SendBreak   int `json:"send_break"`   // Send fails, the batch is lost, the stream is dead
-	AmbigSend   int `json:"ambig_send"`   // mode ambig only: Send fails but the server got the batch
-	Slow        int `json:"slow"`         // response delayed by 20..400 ms
-	VerySlow    int `json:"very_slow"`    // response delayed by 1..6 s
-	QuantumUs   int `json:"quantum_us"`   // responses are flushed in groups at most this late
-	Health      int `json:"health"`       // flush carries health feedback
-	Load        int `json:"load"`         // flush carries a transport layer load
-	FailCreate  int `json:"fail_create"`  // after a break: how many (0..n) re-creations fail, upper bound
-	KeepQueued  int `json:"keep_queued"`  // on a break: responses already queued are still delivered before the error
+	Drop       int `json:"drop"`        // response never sent
+	Dup        int `json:"dup"`         // response sent twice
+	Ghost      int `json:"ghost"`       // an extra response with an id nobody asked for
+	RecvBreak  int `json:"recv_break"`  // the stream dies instead of answering
+	ConnWide   int `json:"conn_wide"`   // ... and with it every stream of the connection
+	SendBreak  int `json:"send_break"`  // Send fails, the batch is lost, the stream is dead
+	AmbigSend  int `json:"ambig_send"`  // mode ambig only: Send fails but the server got the batch
+	Slow       int `json:"slow"`        // response delayed by 20..400 ms
+	VerySlow   int `json:"very_slow"`   // response delayed by 1..6 s
+	QuantumUs  int `json:"quantum_us"`  // responses are flushed in groups at most this late
+	Health     int `json:"health"`      // flush carries health feedback
+	Load       int `json:"load"`        // flush carries a transport layer load
+	FailCreate int `json:"fail_create"` // after a break: how many (0..n) re-creations fail, upper bound
+	KeepQueued int `json:"keep_queued"` // on a break: responses already queued are still delivered before the error
+	// SlowConnect (per mille, per connection): the FIRST wait for the connection to become ready takes 1..80 ms of
+	// simulated time (TCP / TLS set-up) while the send loop holds the first batch it has built
+	SlowConnect int `json:"slow_connect,omitempty"`
 }
 
 // YieldCfg holds per-mille probabilities of delays at yield points.
@@ -159,6 +165,7 @@ func generate(cfg simkit.RunConfig) *Scenario {
 		if r.Intn(100) < 40 {
 			n.VerySlow = pick(r, 10, 50, 150)
 		}
+		n.SlowConnect = pick(r, 0, 0, 300, 800)
 		n.FailCreate = pick(r, 0, 1, 2, 4)
 		n.KeepQueued = pick(r, 0, 500, 1000)
 		sc.Yield = YieldCfg{Delay: pick(r, 0, 50, 200, 500), Long: pick(r, 0, 0, 10, 40), Stall: pick(r, 0, 0, 10, 40)}
@@ -198,6 +205,9 @@ func generate(cfg simkit.RunConfig) *Scenario {
 			}
 			if mode == "nodeadline" && call.Async && r.Intn(100) < 70 {
 				call.TimeoutMs = 0
+			}
+			if fault && !call.Async && call.TimeoutMs > 0 && r.Intn(100) < 15 {
+				call.CtxExtraMs = pick(r, 1, 50, 700, 5000, 60000)
 			}
 			if fault && r.Intn(100) < 15 {
 				lim := call.TimeoutMs * 1000
